@@ -21,7 +21,12 @@ RULE = ("A trace segment is the life of ONE boc.MerkleProver (Reset = NewMerkleP
         "an earlier proof (pruned branches, root of level 1; spec-written first proofs for every single / pair of positions of "
         "depth <= 2 and for every 1-2 kept keys of a dictionary in S->C, library-made first proofs in C->S); the second proof is "
         "judged with the level-0 hashes / depths of Cells!InfoTable against the source and the original tree (clauses level-mask, "
-        "stored-hash/depth, pruned-cell for kept, re-pruned and newly pruned branches). Non-trivial = a proof judged; distinct = distinct "
+        "stored-hash/depth, pruned-cell for kept, re-pruned and newly pruned branches). MERKLE CELLS BELOW THE ROOT: 4 spec-built, well-formed "
+        "trees (a Merkle-proof cell over a whole / a partly pruned sub-tree, a Merkle-update cell with two children, Merkle depth 2), handed "
+        "over as a Boc!Write bag and - without pruned branches - built in memory; TLC scripts prune beside, above, at and strictly beneath "
+        "the Merkle cell; CreateProof may refuse iff a Merkle cell is reached by the prune set (no proper prefix of its position pruned), "
+        "every bag it returns is judged with the level arithmetic of Cells!InfoTable (a position with k Merkle cells above it needs a "
+        "pruned branch of level k+1). Non-trivial = a proof judged; distinct = distinct "
         "proof bags + distinct refusals.")
 
 TRACE = ("MerkleProof_Trace", "trace/MerkleProof_Trace.cfg")
@@ -38,6 +43,10 @@ def vector_of(seg, upto):
     v = {"src": r.get("src", ""), "cells": cs, "roots": r["roots"], "modes": [mode]}
     if "srcboc" in r:         # two-step: the source is the tree under this (recorded or spec-written) first proof of `orig`
         v.update(srcboc=r["srcboc"], orig=[{"b": c["b"], "x": c["x"], "r": c["r"]} for c in r["orig"]["cells"]])
+    if "bag" in r:            # the source (Merkle cells below the root) is the root of this spec-written bag
+        v["bag"] = r["bag"]
+    elif any(c["x"] in (3, 4) for c in cs):
+        v["bag"] = "memory"   # built in memory from the rows (no pruned branches)
     if r.get("kind") == "dict":
         v.update(t="dict", n=r["n"], keys=[e["key"] for e in evs if e.get("k") == "Key"])
     else:
@@ -56,6 +65,11 @@ def finding_key(e, reason, cls):
         return "C18:dict:absent-key-proved"                  # (whatever the source looks like)
     if cls == "held":
         return "C18:held-cursor:prune-set"                   # wrong positions pruned after a cursor value was kept while others were derived
+    if cls == "beneath-merkle":
+        # the session pruned a position strictly beneath a Merkle-proof / Merkle-update cell of the source (clause in the text)
+        return "C18:merkle-cell-below-root:pruned-beneath:%s" % ("refused" if reason == "create-proof-error" else "wrong-proof")
+    if cls == "merkle":
+        return "C18:merkle-cell-below-root:%s" % reason       # the source has Merkle cells below its root, nothing pruned beneath them
     if cls == "partial":
         return "C18:partial-source:%s" % reason              # the source is the tree under an earlier proof; named by the failing clause
     if k == "Key":
@@ -102,6 +116,8 @@ def judge(ck, traces, stats):
                   "valueref": "; a cell referenced by the key's value is the same cell as the sibling at a fork of its path",
                   "held": "; a Prune went through a cursor value that was kept while other values were derived",
                   "leak": "; every unaccounted pruned branch was pruned by an EARLIER request of the same prover",
+                  "beneath-merkle": "; the source has a Merkle-proof / Merkle-update cell below its root and the session pruned a position strictly beneath it",
+                  "merkle": "; the source has a Merkle-proof / Merkle-update cell below its root",
                   "partial": "; the source is the tree under an earlier proof (it contains pruned branches)"}.get(cls, "")
             if e.get("k") == "Key":
                 what = "ProofOK fails at clause '%s' for key %s (%s%s): ProveKeyInHashmap returned err=%r proof=%s" % (
@@ -129,7 +145,8 @@ CANARY_EXPECT = [("W1", None), ("W2", ("pruned-but-not-asked", "leak")), ("W3", 
                  ("D4", ("absent-key-proved", "plain")), ("D5", ("stored-hash", "plain")), ("D6", ("returned-value", "plain")),
                  ("P1", None), ("P2", ("level-mask", "partial")), ("P3", ("stored-hash", "partial")), ("P4", ("pruned-cell", "partial")),
                  ("Q1", None), ("Q2", ("stored-hash", "partial")),
-                 ("H1", None), ("H2", ("asked-but-not-pruned", "held")), ("K1", ("kept-cell", "plain"))]
+                 ("H1", None), ("H2", ("asked-but-not-pruned", "held")), ("K1", ("kept-cell", "plain")),
+                 ("X1", None), ("X2", ("pruned-cell", "beneath-merkle")), ("X3", ("create-proof-error", "merkle")), ("X4", None)]
 
 
 def canaries(ck):
@@ -166,9 +183,47 @@ def generate(ck):
             ("MerkleProof_GenD", "gen/MerkleProof_GenD_quick.cfg" if q else "gen/MerkleProof_GenD_full.cfg", "gen_dict"),
             ("MerkleProof_Gen", "gen/MerkleProof_Gen_two_quick.cfg" if q else "gen/MerkleProof_Gen_two_full.cfg", "gen_walk_two"),
             ("MerkleProof_GenD", "gen/MerkleProof_GenD_two_quick.cfg" if q else "gen/MerkleProof_GenD_two_full.cfg", "gen_dict_two"),
-            ("MerkleProof_Gen", "gen/MerkleProof_Gen_hold_quick.cfg" if q else "gen/MerkleProof_Gen_hold_full.cfg", "gen_walk_hold")]
-    rs = vlib.parallel(lambda j: ck.tlc_or_infra(j[0], j[1], workers=3, timeout=1500, name=j[2], heap_gb=2), jobs, n=6)
-    walks, free, dicts, walks2, dicts2, hold = (r.vecs() for r in rs)
+            ("MerkleProof_Gen", "gen/MerkleProof_Gen_hold_quick.cfg" if q else "gen/MerkleProof_Gen_hold_full.cfg", "gen_walk_hold"),
+            ("MerkleProof_Gen", "gen/MerkleProof_Gen_exotic_quick.cfg" if q else "gen/MerkleProof_Gen_exotic_full.cfg", "gen_walk_merkle")]
+    rs = vlib.parallel(lambda j: ck.tlc_or_infra(j[0], j[1], workers=3, timeout=1500, name=j[2], heap_gb=2), jobs, n=7)
+    walks, free, dicts, walks2, dicts2, hold, exo = (r.vecs() for r in rs)
+    # sources with a Merkle-proof / Merkle-update cell below the root: scripts by where their sessions prune relative to it
+    if len(exo) < 3000 or not all(v["selfcheck"] for v in exo):
+        raise Infra("generator of trees with Merkle cells below the root: too few vectors or a tree that is not well formed (%d)" % len(exo))
+    def merkle_class(v):
+        """the set of {'beneath', 'at', 'above', 'beside', 'none'} over the sessions of the script"""
+        out, paths, ps = set(), {0: ()}, []
+        def where(p):
+            row, above = v["roots"][0], False
+            for i in p:
+                if v["cells"][row]["x"] in (3, 4):
+                    above = True
+                row = v["cells"][row]["r"][i]
+            if above:
+                return "beneath"
+            if v["cells"][row]["x"] in (3, 4):
+                return "at"
+            def has(rw):
+                return v["cells"][rw]["x"] in (3, 4) or any(has(k) for k in v["cells"][rw]["r"])
+            return "above" if has(row) else "beside"
+        for st in v["script"]:
+            if st["k"] == "Cursor":
+                paths, ps = {0: ()}, []
+            elif st["k"] == "Ref":
+                paths[st["nh"]] = paths[st["h"]] + (st["i"],)
+            elif st["k"] == "Prune":
+                ps.append(paths[st["h"]])
+            elif st["k"] == "Create":
+                out |= {where(p) for p in ps} or {"none"}
+        return out
+    for v in exo:
+        v["src"] = "gen:merkle-below-root:tree%d" % v["xtree"]
+        v["mclass"] = merkle_class(v)
+    exoA = [v for v in exo if "beneath" in v["mclass"]]
+    exoB = [v for v in exo if "beneath" not in v["mclass"] and v["mclass"] & {"at", "above"}]
+    exoC = [v for v in exo if not v["mclass"] & {"beneath", "at", "above"}]
+    if len(exoA) < 300 or len(exoB) < 300 or len(exoC) < 100:
+        raise Infra("scripts on trees with Merkle cells: too few prune beneath / at or above / beside a Merkle cell (%d, %d, %d)" % (len(exoA), len(exoB), len(exoC)))
     if len(hold) < 5000:
         raise Infra("hold generator produced too few vectors (%d)" % len(hold))
     def held_deep(v):        # a Prune through a cursor value of depth >= 2 after a later value was derived from the same parent
@@ -214,7 +269,9 @@ def generate(ck):
         raise Infra("no generated dictionary has a fork with two equal children (vacuous)")
     ck.extra["generated"] = {"walk_dfs": len(walks), "walk_free": len(free), "dict": len(dicts), "dict_with_equal_siblings": len(twin),
                              "walk_two_step": len(walks2), "dict_two_step": len(dicts2),
-                             "walk_hold": len(hold), "walk_hold_prune_through_held_value_depth>=2": len(holdA)}
+                             "walk_hold": len(hold), "walk_hold_prune_through_held_value_depth>=2": len(holdA),
+                             "walk_merkle_cell_below_root": len(exo), "walk_merkle_prune_strictly_beneath": len(exoA),
+                             "walk_merkle_prune_at_or_above": len(exoB), "walk_merkle_prune_beside_or_none": len(exoC)}
     def later_request_after_prune(v):      # a session that starts after an earlier session pruned something
         seen = False
         for st in v["script"]:
@@ -226,17 +283,19 @@ def generate(ck):
     seq = [v for v in walks if later_request_after_prune(v)]
     other = [v for v in walks if not later_request_after_prune(v)]
     ck.extra["generated"]["walk_dfs_with_session_after_prune"] = len(seq)
-    for l in (seq, other, free, twin, plain, w2a, w2b, dicts2, holdA, holdB):
+    for l in (seq, other, free, twin, plain, w2a, w2b, dicts2, holdA, holdB, exoA, exoB, exoC):
         ck.rng.shuffle(l)
     if q:
         seq, other, free, twin, plain = seq[:200], other[:80], free[:80], twin[:100], plain[:150]
         w2a, w2b, dicts2 = w2a[:420], w2b[:60], dicts2[:320]
         holdA, holdB = holdA[:260], holdB[:100]
+        exoA, exoB, exoC = exoA[:160], exoB[:110], exoC[:50]
     else:
         seq, other, free = seq[:7000], other[:3000], free[:4000]
         w2a, w2b, dicts2 = w2a[:12000], w2b[:1500], dicts2[:8000]
         holdA, holdB = holdA[:9000], holdB[:3000]
-    vecs = seq + other + free + twin + plain + w2a + w2b + dicts2 + holdA + holdB
+        exoA, exoB, exoC = exoA[:6000], exoB[:4000], exoC[:1500]
+    vecs = seq + other + free + twin + plain + w2a + w2b + dicts2 + holdA + holdB + exoA + exoB + exoC
     for i, v in enumerate(vecs):
         v["vec"] = i
         # every third vector: the cells are read before the prover is built (walks: nothing reset afterwards; dictionaries:
@@ -245,14 +304,14 @@ def generate(ck):
             v["preread"] = "readall" if v["t"] == "walk" or i % 2 else "prove-before"
         if "orig" in v:
             v["orig"] = [{"b": c["b"], "x": c["x"], "r": c["r"]} for c in v["orig"]]
-        for f in ("selfcheck", "reqs", "twin", "forms", "vmode"):
+        for f in ("selfcheck", "reqs", "twin", "forms", "vmode", "xtree", "mclass"):
             v.pop(f, None)
     return vecs
 
 
 def run(ck):
     ck.assumptions += ["TLC 1.8.0, CommunityModules", "Prim (Sha256, converters)", "Cells / Boc / Dict modules (cross-checked by C01 C02 C05 C07)",
-                       "domain: the proven tree consists of ordinary level-0 cells; dictionary values are inline bits, some with 1-2 leaf references",
+                       "domain: the proven tree consists of ordinary level-0 cells (cursor walks: also Merkle-proof / Merkle-update cells below the root, where a refusal is allowed iff such a cell is reached by the prune set); dictionary values are inline bits, some with 1-2 leaf references",
                        "SHA-256 collision resistance (equal level-0 hash => equal unpruned cells) is only used as a cross-check, cells are also compared structurally"]
     ck.build_vh()
     shards = vlib.NCPU
@@ -271,11 +330,12 @@ def run(ck):
     stats = Counter()
     proofs = set()
     for tp in rtraces + dtraces:
-        mode, nreq, seg, two, pre = "", 0, 0, False, False
+        mode, nreq, seg, two, pre, mk = "", 0, 0, False, False, False
         for e in vlib.read_ndjson(tp):
             k = e.get("k")
             if k == "Reset":
                 mode, nreq, seg, two, pre = e["mode"], 0, seg + 1, "orig" in e, bool(e.get("preread"))
+                mk = any(c["x"] in (3, 4) for c in e["cells"])
                 stats["%s_provers:%s" % (e["kind"], mode)] += 1
             elif k == "Key":
                 nreq += 1
@@ -288,15 +348,21 @@ def run(ck):
                     stats["dict_refusals"] += 1; proofs.add((tp, seg, e["key"]))
             elif k == "Create":
                 nreq += 1
+                stats["walk_requests_source_with_merkle_cells"] += mk
                 if e["proof"]:
                     stats["walk_proofs"] += 1; proofs.add(e["proof"])
                     stats["walk_proofs_after_first_request"] += nreq > 1
                     stats["walk_proofs_two_step"] += two
                     stats["walk_proofs_cells_read_before"] += pre
+                    stats["walk_proofs_source_with_merkle_cells"] += mk
+                elif e["err"]:
+                    stats["walk_refusals"] += 1; proofs.add((tp, seg, nreq))
+                    stats["walk_refusals_source_with_merkle_cells"] += mk
     if (stats["dict_proofs"] < 1500 or stats["dict_refusals"] < 800 or stats["walk_proofs"] < 1500
             or stats["dict_proofs_after_first_request"] < 1000 or stats["walk_proofs_after_first_request"] < 800
             or stats["dict_proofs_two_step"] < 300 or stats["walk_proofs_two_step"] < 500
-            or stats["dict_proofs_cells_read_before"] < 500 or stats["walk_proofs_cells_read_before"] < 500):
+            or stats["dict_proofs_cells_read_before"] < 500 or stats["walk_proofs_cells_read_before"] < 500
+            or stats["walk_requests_source_with_merkle_cells"] < 400):
         raise Infra("too few proofs recorded (vacuous): %s" % dict(stats))
     for m in ("tree", "dag", "boc", "lib", "proof"):
         if not stats["dict_provers:" + m]:
